@@ -810,9 +810,6 @@ impl Factor {
                     // Struct/Union/Enum should be treated as flatten bit/logic when it is bit-selected
                     if !select.is_empty() {
                         comptime.r#type.flatten_struct_union_enum();
-                        // A bit/part select is unsigned whatever the variable's
-                        // signedness (LRM 11.8.1).
-                        comptime.r#type.signed = false;
                     }
 
                     // Skip on empty select to preserve parametric `width_expr`.
